@@ -48,6 +48,8 @@ Clauses(o, n, e, v1) == <<
     \* C11 / C04: the documented code for link faults and time-outs
     <<"LinkFaultCode", (e.k = "conn" /\ e.connected /\ e.cause \in {"linkfault", "timeout"})
                          => (e.hascode /\ e.code = DeviceError(v1))>>,
+    \* C09: no command succeeds on a device that is not one to serve from (ground truth when the request ends)
+    <<"SuccessFromUnsafeDevice", (e.k = "conn" /\ e.connected /\ e.unsafe) => ~(e.hascode /\ e.code >= 0)>>,
     \* once it decided to stop it really stops: no further request is served
     <<"ServedAfterStop", (e.k = "conn" /\ o.phase \in {"stopping", "exited"}) => ~e.connected>> >>
 
